@@ -62,6 +62,10 @@ def _system(draw, big):
             "cutoff_time": draw(st.sampled_from([None, None, 0.3, 0.6])) if theory == "stR" else None,
             "coupling_cutoff": draw(st.sampled_from([None, 0, 5, 40, 120, 400])) if theory == "cRF" else None,
             "route": draw(st.sampled_from(["opensystem", "direct"])) if theory == "stR" else "opensystem",
+            # object histories: the aggregate has handed out a tensor of the same theory with other options before and
+            # this one is asked for with recalculate=False; the finished (Foerster) tensor is initialised a second time
+            "prior_call": draw(st.sampled_from([None, None, "other-options"])),
+            "reinitialize": draw(st.sampled_from([False, False, True])),
             "other": other, "A": draw(gens.complex_matrix(dim))}
 
 
@@ -172,6 +176,18 @@ def _build(qr, case, secular, as_ops=None):
         kw["as_operators"] = as_ops
         if case["td"]:
             kw["relaxation_cutoff_time"] = ct
+    if case.get("prior_call") and secular == case["secular"] and as_ops == case["as_ops"]:
+        # (only for the tensor under test, not for the twins built for comparison)
+        kw0 = dict(kw, secular_relaxation=not secular if case["theory"] != "stF" and not (case["td"] and as_ops) else secular,
+                   time_dependent=(not case["td"]) if case["theory"] == "stF" else case["td"])
+        if kw0.get("time_dependent") is not case["td"]:
+            kw0.pop("relaxation_cutoff_time", None)
+        if case["theory"] == "cRF":
+            with qr.energy_units("1/cm"):
+                agg.get_RelaxationTensor(ta, coupling_cutoff=case["coupling_cutoff"], **kw0)
+        else:
+            agg.get_RelaxationTensor(ta, **kw0)
+        kw["recalculate"] = False
     if case["theory"] == "cRF":
         with qr.energy_units("1/cm"):
             return agg.get_RelaxationTensor(ta, coupling_cutoff=case["coupling_cutoff"], **kw)
@@ -195,6 +211,21 @@ def _check_system(case, ctx):
     if not ok:
         return
     RT, ham = r
+    if case.get("prior_call"):
+        ctx.label("history:earlier-call-with-other-options+recalculate=False")
+        want_ndim = 5 if case["td"] else 4
+        if not as_ops_now:
+            nd = numpy.ndim(RT._data) if hasattr(RT, "_data") else None
+            if nd is not None and nd != want_ndim:
+                ctx.fail("requested-options/time-dependence", tag, ndim=nd, want=want_ndim)
+                return
+    if case.get("reinitialize") and case["theory"] == "stF" and not case["td"]:
+        # the finished tensor is initialised once more (the same inputs): still a trace- and Hermiticity-preserving map
+        ok, _ = guarded(ctx, "initialize-again", lambda: RT.initialize(), tag)
+        if not ok:
+            return
+        tag = tag + "/initialized-twice"
+        ctx.label("history:initialized-twice")
     if as_ops_now and case["td"]:
         # a time-dependent tensor in operator form has no single action; it is checked element-wise after the
         # library's own conversion to tensor form
